@@ -92,6 +92,22 @@ def gen(seed):
         if not spec['opt'].get('j'):
             spec['opt']['j'] = 2
     spec['plan'] = _ws.order_plan(spec['plan'])
+    return add_pm(spec, seed)
+
+
+def add_pm(spec, seed):
+    """-D (scripted stdin answers 'c'): the first failing test ends the run through EndRun -
+    the verdict must still say that something failed."""
+    rng = random.Random(seed ^ 0xD)
+    if rng.random() < 0.07 and not spec['opt'].get('j') and \
+            not any(e['site'] == 'channel' or e['a'] == 'die' for e in spec['plan']):
+        spec['opt']['pm'] = True
+        spec['opt'].pop('buffer', None)
+        # (no resumed children: they cannot be debugged)
+        # (nor import failures: with -D discovery itself enters the debugger and EndRun leaves
+        # run_internal as an exception - a non-zero exit, but no verdict to compare)
+        spec['plan'] = [e for e in spec['plan'] if e.get('exc') != 'NotImplementedError'
+                        and not e['site'].startswith('module.')]
     return spec
 
 
@@ -115,7 +131,8 @@ def run(spec, ctx):
     T = TR.Truth(m, res.trace)
     viols = _ws.oracle_verdict(m, spec, res, T)
     results = [res]
-    if c12.comparable(spec) and not has_child_faults(spec) and not res.raised and not res.hang:
+    if c12.comparable(spec) and not has_child_faults(spec) and not res.raised and not res.hang \
+            and not spec['opt'].get('pm'):
         spec2 = copy.deepcopy(spec)
         spec2['opt'] = c12.other_mode(spec['opt'])
         res2 = core.execute(spec2, W.argv(spec2['opt'], src), label='other-mode')
